@@ -319,6 +319,14 @@ type siteShard struct {
 var siteMutsQuick = map[string]bool{"set-first": true, "set-strkey": true, "append": true, "nested-set": true, "nested-append": true,
 	"unset-first": true, "m-push": true, "m-sort": true, "incr": true, "f-sort": true, "f-push": true, "f-pop": true}
 
+var kindDecl = func() map[string]bool {
+	m := map[string]bool{}
+	for _, k := range siteKinds() {
+		m[k.name] = k.decl != ""
+	}
+	return m
+}()
+
 func siteWorker(w *pool.W, arg json.RawMessage) {
 	var sh siteShard
 	json.Unmarshal(arg, &sh)
@@ -330,6 +338,11 @@ func siteWorker(w *pool.W, arg json.RawMessage) {
 			continue
 		}
 		for _, rep := range []string{"loop", "call"} {
+			if sh.Quick && rep == "call" && kindDecl[sh.Kind] {
+				// quick: kinds whose literal already sits in a function / class declaration are repeated
+				// by the loop only; the inline kinds (lit, litinner, ternary) run both repetitions
+				continue
+			}
 			for _, m := range mutations() {
 				if sh.Quick && !siteMutsQuick[m.name] {
 					continue
